@@ -277,3 +277,58 @@ def ptr_module(int_types, ptr_bits):
     f, b, _ = fn('glob2i', sw, [])
     em(b, ir.Return(em(b, ir.Cast(g, 'c', sw))))
     return m
+
+
+def und_module(types):
+    """used ir.Undefined of every value type: binop operand, stored, returned, call argument, phi input"""
+    from ppci import ir
+    m = ir.Module('unds')
+    g = ir.Variable('ug', ir.Binding.GLOBAL, 16, 8)
+    m.add_variable(g)
+
+    def fn(name, ret, params):
+        f = ir.Function(name, ir.Binding.GLOBAL, ret) if ret is not None else ir.Procedure(name, ir.Binding.GLOBAL)
+        m.add_function(f)
+        ps = []
+        for i, t in enumerate(params):
+            p = ir.Parameter('%s_a%d' % (name, i), t)
+            f.add_parameter(p)
+            ps.append(p)
+        b = ir.Block(name + '_entry')
+        f.add_block(b)
+        f.entry = b
+        return f, b, ps
+
+    def em(b, ins):
+        b.add_instruction(ins)
+        return ins
+    for t in types:
+        n = str(t)
+        op = '|' if t.is_integer else '+'
+        f, b, (a,) = fn('und_bin_' + n, t, [t])
+        u = em(b, ir.Undefined('u', t))
+        em(b, ir.Return(em(b, ir.Binop(u, op, a, 'r', t))))
+        f, b, _ = fn('und_ret_' + n, t, [])
+        em(b, ir.Return(em(b, ir.Undefined('u', t))))
+        f, b, _ = fn('und_store_' + n, None, [])
+        em(b, ir.Store(em(b, ir.Undefined('u', t)), g))
+        em(b, ir.Exit())
+        e = ir.ExternalProcedure('uext_' + n, [t])
+        m.add_external(e)
+        f, b, _ = fn('und_arg_' + n, None, [])
+        em(b, ir.ProcedureCall(e, [em(b, ir.Undefined('u', t))]))
+        em(b, ir.Exit())
+        f, b, (c, d) = fn('und_phi_' + n, t, [ir.i32, t])       # what mem2reg leaves for `T x; if (c) x = d; return x op d`
+        u = em(b, ir.Undefined('u', t))
+        zero = em(b, ir.Const(0, 'z', ir.i32))
+        b1, b2 = ir.Block('und_phi_%s_then' % n), ir.Block('und_phi_%s_join' % n)
+        f.add_block(b1)
+        f.add_block(b2)
+        em(b, ir.CJump(c, '==', zero, b2, b1))
+        x1 = em(b1, ir.Binop(d, op, d, 'x1', t))
+        em(b1, ir.Jump(b2))
+        ph = em(b2, ir.Phi('x', t))
+        ph.set_incoming(b, u)
+        ph.set_incoming(b1, x1)
+        em(b2, ir.Return(em(b2, ir.Binop(ph, op, d, 'r', t))))
+    return m
